@@ -34,6 +34,21 @@ func linkKeyBytes(k byte) []byte {
 	return b
 }
 
+// faultyKey: the shared link key behind a seam that can make sealing fail (remote keystore, HSM).
+type faultyKey struct {
+	enc.SharedKey
+	failSeal *bool
+}
+
+func (f *faultyKey) SealWithNonce(msg []byte, nonce []byte) ([]byte, error) {
+	if f.failSeal != nil && *f.failSeal {
+		return nil, enc.ErrCannotEncrypt
+	}
+	return f.SharedKey.SealWithNonce(msg, nonce)
+}
+
+var sealFault bool
+
 func linkIO(key []byte) iface.IO {
 	// the key is handed over in a scratch buffer that is wiped afterwards, as a careful caller would
 	buf := append([]byte(nil), key...)
@@ -44,7 +59,7 @@ func linkIO(key []byte) iface.IO {
 	if err != nil {
 		panic(&harnessError{"secretbox: " + err.Error()})
 	}
-	return defaultIO().ApplyOptions(&cbor.Options{LinkKey: sk})
+	return defaultIO().ApplyOptions(&cbor.Options{LinkKey: &faultyKey{SharedKey: sk, failSeal: &sealFault}})
 }
 
 func pbIO() iface.IO {
@@ -445,6 +460,51 @@ func (w *World) doBounded() {
 	if len(wantHeads) > 1 {
 		r.Probe("bounded-forked-result")
 	}
+	// further bounded merges into the SAME (now possibly non-closed) object: whatever its history, a
+	// bounded merge must not panic, must leave at most n entries, all of them in the linearised view,
+	// with heads equal to the unreferenced entries among them
+	for round := 0; round < r.Choose("bnd-chain", 3); round++ {
+		o := w.pickUp("bnd-other")
+		n2 := r.Choose("bnd-n2", total+4)
+		if o == nil {
+			break
+		}
+		var err error
+		out := Protect(func() { _, err = c.Join(w.clone(o, true), n2) })
+		if out.Status == "violation" {
+			r.Violate("C16:panic", "a further Join with size bound %d on an already truncated log panicked: %s", n2, out.Msg)
+		} else if out.Status != "ok" {
+			r.Harness("%s", out.Msg)
+		}
+		if err != nil {
+			r.Violate("C16:join-error", "bounded merge of honest logs returned %v", err)
+		}
+		held := hashSet(c.GetEntries())
+		vals := hashSeq(c.Values())
+		if len(held) > n2 || c.Len() != len(held) {
+			r.Violate("C16:len", "after a further merge with bound %d the log holds %d entries (Len %d)", n2, len(held), c.Len())
+		}
+		if joinS(sortedCopy(vals)) != joinS(sortedKeys(held)) {
+			r.Violate("C16:values", "after a further merge with bound %d the log holds %v but its linearised view is %v", n2, m.Names(sortedKeys(held)), m.Names(vals))
+		}
+		nm := map[string]bool{}
+		for h := range held {
+			for _, nx := range m.Reg[h].Next {
+				nm[nx] = true
+			}
+		}
+		var wh []string
+		for h := range held {
+			if !nm[h] {
+				wh = append(wh, h)
+			}
+		}
+		sort.Strings(wh)
+		if hs := sortedCopy(hashSeq(c.Heads())); joinS(hs) != joinS(wh) {
+			r.Violate("C16:heads", "after a further merge with bound %d heads are %v, unreferenced among the held entries are %v", n2, m.Names(hs), m.Names(wh))
+		}
+		r.Probe("chained-bounded-merges")
+	}
 }
 
 // ------------------------------------------------------------------ C06 / C07
@@ -634,6 +694,18 @@ func (w *World) doByz() {
 	var headEntries []iface.IPFSLogEntry
 	for _, h := range heads {
 		headEntries = append(headEntries, srcEntries[h])
+	}
+	if r.Choose("byz-ghost-head", 6) == 0 && w.Codec != "pb" {
+		// the source claims a head that its entry index does not hold (valid, right log id): it is not a
+		// candidate, so it must not become observable in the receiver, not even as a head
+		ge, err := entry.CreateEntryWithIO(w.ctx, w.St, s.W.ID, &entry.Entry{LogID: w.LogID, Payload: w.payload(),
+			Clock: entry.NewLamportClock(s.W.ID.PublicKey, src.Clock.GetTime()+2)}, nil, w.IO)
+		if err != nil {
+			r.Harness("ghost head: %v", err)
+		}
+		w.register(ge)
+		headEntries = append(headEntries, ge)
+		r.Fault("ghost-head-not-in-source-index")
 	}
 	o := w.logOpts()
 	o.Entries = om
@@ -1039,4 +1111,58 @@ func (w *World) doPartial() {
 	check("after merging the full source")
 	r.Probe("partially-loaded-log-merged")
 	r.Logf("partial n%d limit=%d then merged with n%d and n%d", src.Idx, lim, other.Idx, src.Idx)
+}
+
+// appendWithSealFault: sealing the links fails during this append. The append must fail; nothing with
+// the links in clear may reach the store.
+func (w *World) appendWithSealFault(n *Node, pl []byte, pc int) {
+	r := w.R
+	before := w.observe(n.Log)
+	writes := len(w.St.Writes)
+	sealFault = true
+	e, err := n.Log.Append(w.ctx, pl, &ipfslog.AppendOptions{PointerCount: pc})
+	sealFault = false
+	r.Fault("seal-error")
+	r.Logf("append n%d with link sealing error -> err=%v", n.Idx, err != nil)
+	for _, wr := range w.St.Writes[writes:] {
+		for _, h := range w.M.Order {
+			if how := leaks(wr.Bytes, w.Cids[h]); how != "" {
+				r.Violate("C18:leak", "a block written while link sealing failed contains the identifier of %s (%s form)", w.M.Name(h), how)
+			}
+		}
+	}
+	if err == nil {
+		r.Violate(w.P.Prop+":seal-error-ignored", "Append returned %v although sealing its links failed", e.GetHash())
+	}
+	_, strict := w.M.Linear(n.Set, w.ByHash)
+	if d := w.sameObs(before, w.observe(n.Log), strict); d != "" {
+		r.Violate(w.P.Prop+":failed-append-changed-log", "an append that failed to seal its links changed the log: %s", d)
+	}
+	n.ClockAhead = true
+}
+
+// appendWithCancelledContext: the caller's context is already done. The append may fail or succeed,
+// but if it reports success the entry must be durable and in the log like any other.
+func (w *World) appendWithCancelledContext(n *Node, pl []byte, pc int) {
+	r := w.R
+	ctx, cancel := context.WithCancel(w.ctx)
+	cancel()
+	before := w.observe(n.Log)
+	e, err := n.Log.Append(ctx, pl, &ipfslog.AppendOptions{PointerCount: pc})
+	r.Fault("context-already-cancelled")
+	r.Logf("append n%d with a cancelled context -> err=%v", n.Idx, err != nil)
+	n.ClockAhead = true
+	if err != nil {
+		_, strict := w.M.Linear(n.Set, w.ByHash)
+		if d := w.sameObs(before, w.observe(n.Log), strict); d != "" {
+			r.Violate(w.P.Prop+":failed-append-changed-log", "an append that returned an error changed the log: %s", d)
+		}
+		return
+	}
+	if !w.St.Has(e.GetHash()) {
+		r.Violate(w.P.Prop+":acknowledged-lost-write", "Append with an already cancelled context returned %v but its block is not in the store", e.GetHash())
+	}
+	me := w.register(e)
+	n.Set[me.Hash] = true
+	w.recordPointer(n, 1, e.GetHash())
 }
